@@ -3,6 +3,8 @@ package main
 import (
 	"fmt"
 	"math/rand"
+	"net"
+	"strings"
 )
 
 // C13: a graceful leave is remembered across restarts. Executor and op
@@ -19,6 +21,7 @@ func c13Gen(rng *rand.Rand, tier string) []Case {
 		out = append(out, Case{ID: fmt.Sprintf("burst%d", i), Tags: []string{"async", "burst-leave"}, Nontrivial: true,
 			Ops: []string{fmt.Sprintf("burstleave %d %d %d", c[0], c[1], c[2])}})
 	}
+	out = append(out, c13Sweep(tier)...)
 	n := 400
 	if tier == "thorough" {
 		n = 6000
@@ -29,11 +32,65 @@ func c13Gen(rng *rand.Rand, tier string) []Case {
 		case i%10 < 3:
 			o.async = true
 			o.maxEvents = 20
+			o.long = i%10 == 2 && i%20 < 10 // long names through the real goroutines: offsets beyond 2*128*nodes
 		case i%10 == 3:
 			o.long = true
 			o.maxEvents = 10
 		}
 		out = append(out, snapCase(rng, fmt.Sprintf("l%d", i), o))
+	}
+	return out
+}
+
+// c13Sweep: lives through the real goroutines (NewSnapshotter, stream(), Leave(),
+// shutdown, Wait) in which the 6-byte `leave` line is the append that crosses the
+// compaction threshold: the file offset just before the Leave() is swept one byte
+// at a time across the threshold (by the threshold, by a member-name length, and
+// by the digits of a user-event clock line), rejoin-after-leave off and on. The
+// compaction run from inside that append must already see the emptied rejoin set,
+// or it rewrites the file as alive lines + clocks and the `leave` marker is gone.
+func c13Sweep(tier string) []Case {
+	var out []Case
+	member := func(name string, last byte) (string, int) {
+		ip := net.IP{10, 0, 0, last}
+		addr := (&net.TCPAddr{IP: ip, Port: 7946}).String()
+		return fmt.Sprintf("%s,%s,%d,%s", hexs(name), hexb(ip), 7946, hexs(addr)),
+			len("alive: ") + len(name) + 1 + len(addr) + 1
+	}
+	name := func(n int, c byte) string { return strings.Repeat(string(c), n) }
+	add := func(id string, rj bool, mc, offset int, pre []string) {
+		ops := []string{fmt.Sprintf("new async %s %d", b01(rj), mc)}
+		ops = append(ops, pre...)
+		ops = append(ops, "leave", "shutdown 1", fmt.Sprintf("reopen %s %d", b01(rj), mc), "shutdown 1")
+		tags := []string{"async", "leave", "leave-sweep", fmt.Sprintf("leave-sweep-d%+d", mc-offset)}
+		if offset <= mc && offset+6 > mc {
+			tags = append(tags, "leave-append-compacts")
+		}
+		out = append(out, Case{ID: id, Tags: tags, Nontrivial: true, Ops: ops})
+	}
+	lo, hi := -3, 9
+	if tier == "thorough" {
+		lo, hi = -12, 20
+	}
+	for _, rj := range []bool{false, true} {
+		// (a) one member with a 300-byte name (offset > 2*128*1 nodes), the threshold swept
+		m, o := member(name(300, 'a'), 1)
+		for d := lo; d <= hi; d++ {
+			add(fmt.Sprintf("sweep-mc-%s-%d", b01(rj), d-lo), rj, o+d, o, []string{"join 1 " + m})
+		}
+		// (b) two members, threshold fixed at 1024, the second name's length swept
+		m1, o1 := member(name(400, 'b'), 2)
+		for d := lo; d <= hi; d++ {
+			_, base := member("", 3)
+			m2, o2 := member(name(1024-d-o1-base, 'c'), 3)
+			add(fmt.Sprintf("sweep-name-%s-%d", b01(rj), d-lo), rj, 1024, o1+o2, []string{"join 1 " + m1, "join 1 " + m2})
+		}
+		// (c) one member and user-event clock lines in front of the leave, threshold swept
+		m3, o3 := member(name(350, 'd'), 4)
+		o3 += len("event-clock: 7\n") + len("event-clock: 12345\n")
+		for d := lo; d <= hi; d++ {
+			add(fmt.Sprintf("sweep-ev-%s-%d", b01(rj), d-lo), rj, o3+d, o3, []string{"join 1 " + m3, "user 7", "user 12345"})
+		}
 	}
 	return out
 }
@@ -44,6 +101,7 @@ func init() {
 		Rule: "random lives of the real Snapshotter with a Leave() at a random position among ≤30 events (joins incl. multi-member, leave/failed, update/reap, user/query times, clock ticks, flush-interval elapsing, forced compactions, dumps) " +
 			"× rejoin-after-leave on/off × thresholds {0,1,64,200,128KiB} × unusual names; 30% through the real goroutines (NewSnapshotter/channel/Leave()/Wait), the rest through the synchronous hooks; then shutdown + reopen by the real NewSnapshotter; " +
 			"plus 3 burst cases: 20-30 lives each through the real goroutines with two joins and a backlog of 1000-2000 user events, Leave() and shutdown at once, restart (the leave must always have been recorded); " +
+			"plus the leave-offset sweep: lives through the real goroutines in which the file offset just before Leave() is moved one byte at a time across the compaction threshold (threshold, member-name length, clock-line digits; rejoin on/off), so that the 6-byte `leave` append is the one that compacts; " +
 			"non-trivial = at least one join in the life (the rejoin set before the leave is non-empty or was); distinct = distinct op sequence",
 		Gen:  c13Gen,
 		Exec: snapExec,
